@@ -429,7 +429,9 @@ class Engine:
 
     def named(self, st, v, hint="t"):
         """Give complex terms (anything with an if-then-else inside) a name, so they can occur in patterns."""
-        from .values import has_ite
+        from .values import has_ite, Binder
+        if Binder.depth > 0:
+            return v
         if isinstance(v, VInt) and has_ite(v.t):
             c = fresh(hint, I)
             st.assume(c == v.t)
@@ -463,6 +465,27 @@ class Engine:
                 self.implicit_error(st, z3.Or(Val.is_VI(v.t), Val.is_VB(v.t)), "TypeError", node, "int-operand")
             return z3.If(Val.is_VB(v.t), z3.If(Val.bval(v.t), 1, 0), Val.ival(v.t))
         raise Unsupported(f"expected int, got {v!r}")
+
+    def dict_has(self, st, cell, item):
+        from .heapmodel import dict_has_term
+        return dict_has_term(cell, box(self.deref(st, item)))
+
+    def dict_getitem(self, st, cell, iv, node):
+        from .heapmodel import dict_has_term
+        kt = box(self.deref(st, iv))
+        if not self.spec_mode:
+            self.implicit_error(st, dict_has_term(cell, kt), "KeyError", node, "key")
+        sel = z3.Select(cell["map"], kt)
+        vt = cell.get("vt")
+        return [(st, unbox(sel, vt) if vt else VAny(sel))]
+
+    def any_as_seq(self, st, v, kind, node=None):
+        """a dynamically typed value used where a bytes / str / int-list operand is required (TypeError otherwise)"""
+        rec, acc = {"bytes": (Val.is_VBy, Val.byval), "bytearray": (Val.is_VBy, Val.byval), "str": (Val.is_VStr, Val.strval),
+                    "ilist": (Val.is_VIL, Val.ilval), "ituple": (Val.is_VIL, Val.ilval)}[kind]
+        if not self.spec_mode:
+            self.implicit_error(st, rec(v.t), "TypeError", node, "operand-type")
+        return VSeq(acc(v.t), kind)
 
     def as_iseq(self, st, v, node=None):
         v = self.deref(st, v)
@@ -599,6 +622,8 @@ class Engine:
                 return VConst(tgt, "module" if m2 is not None else "extmodule")
         if n in self.specs.funcs:
             return VConst(n, "spec")
+        if n in self.cdb.pure:
+            return VConst(self.cdb.pure[n].target, "func")
         if n in self.cdb.lemmas:
             return VConst(n, "lemma")
         if n in BUILTIN_NAMES:
@@ -866,6 +891,10 @@ class Engine:
     def binop(self, st, op, a, b, node):
         a, b = self.deref(st, a), self.deref(st, b)
         if isinstance(op, ast.Add):
+            if isinstance(a, VSeq) and isinstance(b, VAny):
+                b = self.any_as_seq(st, b, a.kind, node)
+            elif isinstance(b, VSeq) and isinstance(a, VAny):
+                a = self.any_as_seq(st, a, b.kind, node)
             if isinstance(a, VSeq) and isinstance(b, VSeq):
                 if a.kind != b.kind and not ({a.kind, b.kind} <= {"bytes", "bytearray"}):
                     if not self.spec_mode:
@@ -898,10 +927,10 @@ class Engine:
                 return VInt(x.as_long() - y.as_long())
             return VInt(x - y)
         if isinstance(op, ast.Mult):
-            if isinstance(a, VSeq) and isinstance(b, (VInt, VBool)):
-                return self.seq_rep(st, a, self.as_int(st, b))
-            if isinstance(b, VSeq) and isinstance(a, (VInt, VBool)):
-                return self.seq_rep(st, b, self.as_int(st, a))
+            if isinstance(a, VSeq) and isinstance(b, (VInt, VBool, VAny)):
+                return self.seq_rep(st, a, self.as_int(st, b, node))
+            if isinstance(b, VSeq) and isinstance(a, (VInt, VBool, VAny)):
+                return self.seq_rep(st, b, self.as_int(st, a, node))
             x, y = self.as_int(st, a, node), self.as_int(st, b, node)
             return VInt(x * y)
         if isinstance(op, (ast.FloorDiv, ast.Mod)):
@@ -976,12 +1005,18 @@ class Engine:
             if sl.step is not None:
                 stepc = ast.unparse(sl.step)
                 if stepc == "-1" and sl.lower is None and sl.upper is None:
-                    for s, v in self.ev(e.value, st):
-                        v = self.deref(s, v)
+                    for s, v0 in self.ev(e.value, st):
+                        v = self.deref(s, v0)
                         if isinstance(v, VSeq):
                             out.append((s, VSeq(IS.rev(v.t), v.kind)))
                         elif isinstance(v, VList):
-                            out.append((s, VList(VS.rev(v.t), v.et, v.kind)))
+                            r = VList(VS.rev(v.t), v.et, v.kind)
+                            if isinstance(v0, VRef) and not self.spec_mode and v.kind == "list":
+                                # a slice of a (mutable) list is a new list object
+                                ident = f"list!{next(_ids)}"
+                                s.heap[ident] = r
+                                r = VRef(ident, "list")
+                            out.append((s, r))
                         else:
                             raise Unsupported("[::-1] on " + repr(v))
                     return out
@@ -1355,8 +1390,10 @@ class Engine:
         s2 = st.fork()
         for n, v in zip(names, vars_):
             s2.env[n] = VInt(v)
-        body = self.ev1(lam.body, s2)
-        bt = self.truth(s2, body)
+        from .values import Binder
+        with Binder():
+            body = self.ev1(lam.body, s2)
+            bt = self.truth(s2, body)
         rng = []
         if lo is not None:
             for v in vars_:
@@ -1364,7 +1401,8 @@ class Engine:
         pats = []
         if trigger is not None:
             for tr in (trigger.elts if isinstance(trigger, (ast.List, ast.Tuple)) else [trigger]):
-                tv = self.ev1(tr, s2)
+                with Binder():
+                    tv = self.ev1(tr, s2)
                 pats.append(tv.t if hasattr(tv, "t") else box(tv))
         full = z3.Implies(z3.And(*rng), bt) if rng and not exists else (z3.And(*(rng + [bt])) if rng else bt)
         if not pats:
